@@ -391,6 +391,26 @@ func (s *Sched) access(fr *frame, addr interface{}, write bool, pos token.Pos) {
 	}
 }
 
+// accessParts records an access to every field/element cell of a struct or array value held in a cell:
+// a whole-struct load or store touches all of its parts, which other goroutines address individually.
+func (s *Sched) accessParts(fr *frame, v value, write bool, pos token.Pos) {
+	if len(s.gs) < 2 {
+		return
+	}
+	switch x := v.(type) {
+	case structure:
+		for i := range x {
+			s.access(fr, &x[i], write, pos)
+			s.accessParts(fr, x[i], write, pos)
+		}
+	case array:
+		for i := range x {
+			s.access(fr, &x[i], write, pos)
+			s.accessParts(fr, x[i], write, pos)
+		}
+	}
+}
+
 func (s *Sched) race(fr *frame, prevWhere, prevKind string, write bool, pos token.Pos) {
 	kind := "read"
 	if write {
